@@ -176,7 +176,12 @@ class Histogram1D(ObjectWithBinning, HistogramBase):
             self._stats = stats or INVALID_STATISTICS
 
         if self.keep_missed:
-            self._missed = np.array(missed, dtype=self.dtype)
+            missed_array = np.array(missed, dtype=float)
+            if self.dtype.kind in "iu" and np.isnan(missed_array).any():
+                # "Unknown" (e.g. underflow of inconsecutive bins) cannot be stored as an integer
+                self._missed = missed_array
+            else:
+                self._missed = np.array(missed, dtype=self.dtype)
         else:
             self._missed = np.zeros(3, dtype=self.dtype)
 
@@ -300,9 +305,15 @@ class Histogram1D(ObjectWithBinning, HistogramBase):
             return np.nan
         return self._missed[0]
 
+    def _set_missed(self, index: int, value) -> None:
+        if self._missed.dtype.kind in "iu" and np.isnan(value):
+            # "Unknown" cannot be stored as an integer
+            self._missed = self._missed.astype(float)
+        self._missed[index] = value
+
     @underflow.setter
     def underflow(self, value):
-        self._missed[0] = value
+        self._set_missed(0, value)
 
     @property
     def overflow(self):
@@ -312,7 +323,7 @@ class Histogram1D(ObjectWithBinning, HistogramBase):
 
     @overflow.setter
     def overflow(self, value):
-        self._missed[1] = value
+        self._set_missed(1, value)
 
     @property
     def inner_missed(self):
@@ -322,7 +333,7 @@ class Histogram1D(ObjectWithBinning, HistogramBase):
 
     @inner_missed.setter
     def inner_missed(self, value):
-        self._missed[2] = value
+        self._set_missed(2, value)
 
     def find_bin(self, value: float, axis: Optional[Axis] = None) -> Optional[int]:
         """Index of bin corresponding to a value.
